@@ -31,6 +31,15 @@ def setup(need_c=True):
         except Exception as e:  # noqa: BLE001
             log = "loading %s failed: %r" % (so, e)
     import mwparserfromhell  # noqa: F401  (after the C module is in sys.modules)
+    import mwparserfromhell.parser as _P
+    # The extension's own initialisation imports mwparserfromhell.parser, which at that moment finds the IN-TREE
+    # _tokenizer (possibly stale) and binds it: rebind the package to the extension built from the current sources.
+    if ctok is not None:
+        _P.CTokenizer = ctok
+        _P.use_c = True
+    else:
+        _P.CTokenizer = None
+        _P.use_c = False
     from mwparserfromhell.parser import contexts
     from mwparserfromhell.parser.builder import Builder
     from mwparserfromhell.parser.tokenizer import Tokenizer
@@ -52,7 +61,11 @@ def tokenize(which, text, ctx=0, skip=False):
     st = setup()
     cls = st["py"] if which == "py" else st["c"]
     try:
-        toks = cls().tokenize(text, ctx, skip)
+        obj = cls()
+        toks = obj.tokenize(text, ctx, skip)
+        if which == "py" and (getattr(obj, "_depth", 0) != 0 or getattr(obj, "_stacks", [])):
+            # every frame that was opened has been closed and has given its depth back
+            return ("exc", "DepthLeak", "after tokenize() the depth counter is %r with %d open stacks" % (obj._depth, len(obj._stacks)))
         return ("ok", canon(toks), toks)
     except RecursionError as e:
         return ("resource", "RecursionError", None)
@@ -60,6 +73,35 @@ def tokenize(which, text, ctx=0, skip=False):
         return ("resource", "MemoryError", None)
     except Exception as e:  # noqa: BLE001
         return ("exc", type(e).__name__, str(e)[:200])
+
+
+_REUSED = {}
+REUSE_WINDOW = 6
+
+
+def tokenize_reused(which, text, ctx=0, skip=False):
+    """The same call on an instance that has already tokenized other inputs (a Parser keeps its tokenizer):
+    ('ok', canonical tokens, history) | ('exc', name, message, history) | None when there is no history yet.
+    The instance is replaced every REUSE_WINDOW calls so that the history named in a report is complete."""
+    st = setup()
+    cls = st["py"] if which == "py" else st["c"]
+    slot = _REUSED.get(which)
+    if slot is None or len(slot[1]) >= REUSE_WINDOW:
+        slot = _REUSED[which] = [cls(), []]
+    obj, hist = slot
+    before = list(hist)
+    hist.append((text, ctx, skip))
+    try:
+        toks = obj.tokenize(text, ctx, skip)
+    except (RecursionError, MemoryError):
+        _REUSED.pop(which, None)
+        return None
+    except Exception as e:  # noqa: BLE001
+        _REUSED.pop(which, None)
+        return ("exc", type(e).__name__, str(e)[:200], before)
+    if not before:
+        return None
+    return ("ok", canon(toks), before)
 
 
 def build(tokens):
@@ -124,6 +166,15 @@ def analyse(text, ctx=0, skip=False, want=("roundtrip", "total", "agree", "canon
             res["stats"]["resource"] = True
             res["fail"].setdefault("total", []).append("%s tokenizer raised %s" % (which, r[1]))
             continue
+        if "agree" in want:
+            ru = tokenize_reused(which, text, ctx, skip)
+            if ru is not None and (ru[0] != "ok" or ru[1] != r[1]):
+                res["stats"]["history"] = [list(h) for h in ru[-1]]
+                res["fail"].setdefault("agree", []).append(
+                    "%s tokenizer instance that had tokenized %r before gives %s where a new instance gives %d tokens"
+                    % (which, ru[-1], ("%s: %s" % (ru[1], ru[2])) if ru[0] != "ok" else
+                       "%d tokens (%r ...)" % (len(ru[1]), [t for t, u in zip(ru[1], r[1] + [None] * len(ru[1])) if t != u][:1]),
+                       len(r[1])))
         tp = canonical_token_problems(r[1])
         if tp:
             res["fail"].setdefault("canon", []).append("%s: %s" % (which, tp[0]))
